@@ -139,6 +139,7 @@ def run_vacuity(r, targets):
     ok = {}
     last = None
     for k, rt in enumerate(vac_levels(fns, targets)):
+        ok_all = {}
         text = vacuity_text(b, fns, rt, all_exec)
         path = b.path.replace('.rs', '__vac%d.rs' % k)
         tmp = path + '.%d.tmp' % os.getpid()
@@ -154,16 +155,28 @@ def run_vacuity(r, targets):
             for mt in js['times-ms']['smt']['smt-run-module-times']:
                 for fb in mt.get('function-breakdown', []):
                     name = fb['function'].split('::', 1)[1] if '::' in fb['function'] else fb['function']
-                    if name in rt:
-                        ok[name] = ok.get(name, True) and fb.get('success', False)
+                    ok_all[name] = ok_all.get(name, True) and fb.get('success', False)
         except Exception:
             pass
+        for q in rt:
+            vn = vname(q, ok_all)
+            if vn is not None:
+                ok[q] = ok_all[vn]
     return last, ok
 
 
-def verus_fn_name(f):
-    """name used in Verus' function-breakdown for a function of the table (best effort)"""
-    return f.qual
+def vname(qual, table):
+    """the key of `table` (Verus' function-breakdown names) for a function of our table, or None"""
+    if qual in table:
+        return qual
+    q2 = re.sub(r'(^|::)[\w:]+ for ', r'\1', qual)       # `mod::Trait for Type::m` -> `mod::Type::m`
+    if q2 in table:
+        return q2
+    meth = qual.rsplit('::', 1)[-1]
+    cands = [k for k in table if 'impl&%' in k and k.rsplit('::', 1)[-1] == meth]
+    if '&' in qual and len(cands) == 1:
+        return cands[0]
+    return None
 
 
 def main(argv):
@@ -242,10 +255,10 @@ def main(argv):
                 trusted.append('assumed contract (external_body): %s [%s]' % (f.qual, r['tag']))
             if kind == 'V':
                 obligations += ob.get(f.qual, 0)
-                smt_total += r['smt_s'].get(f.qual, 0.0)
+                smt_total += r['smt_s'].get(vname(f.qual, r['smt_s']) or '', 0.0)
             fn_rows.append({'unit': r['tag'], 'fn': f.qual, 'how': kind, 'mode': f.mode, 'repo_lines': rl,
                             'obligations': ob.get(f.qual, 0) if kind == 'V' else 0,
-                            'smt_s': round(r['smt_s'].get(f.qual, 0.0), 3)})
+                            'smt_s': round(r['smt_s'].get(vname(f.qual, r['smt_s']) or '', 0.0), 3)})
             if kind == 'V' and rl > 0 and len(samples) < 6:
                 for cl, _ in (f.ensures[:1] or []):
                     samples.append({'function': f.qual, 'unit': r['tag'], 'kind': 'postcondition', 'clause': cl[:300]})
@@ -279,6 +292,7 @@ def main(argv):
 
     # vacuity: every targeted exec function must FAIL `ensures false`
     vac_checked = 0
+    vac_exempt = []
     for r, targets, (vres, vok) in vac:
         if vok is None:
             trouble.append('unit %s: vacuity pass did not complete (%s)' % (r['tag'], (vres or {}).get('stderr_tail', '')[-200:]))
@@ -286,7 +300,9 @@ def main(argv):
         for t in sorted(targets):
             if t in vok:
                 vac_checked += 1
-                if vok[t]:
+                if vok[t] and t in cfg.get('vacuous_ok', {}):
+                    vac_exempt.append('%s: %s' % (t, cfg['vacuous_ok'][t]))
+                elif vok[t]:
                     trouble.append('unit %s: VACUOUS contract: %s verifies `ensures false` (contradictory precondition)' % (r['tag'], t))
             else:
                 # function not in the breakdown: cannot confirm
@@ -339,7 +355,7 @@ def main(argv):
                                  'overlay_drift_lines': sum(i['drift'] for i in r['build'].items),
                                  'ghost_lines_disturbed': sum(i['disturbed'] for i in r['build'].items)} for r in results],
                       'smt_seconds_for_property_functions': round(smt_total, 2), 'backend': 'Verus %s / Z3' % vx._verus_version()},
-            'vacuity': {'functions_checked_with_ensures_false': vac_checked},
+            'vacuity': {'functions_checked_with_ensures_false': vac_checked, 'exempt_unsatisfiable_by_design': vac_exempt},
             'extraction': {'rewrites': sorted(set(rewrites_notes)), 'dropped': sorted(set(dropped))},
             'standins': standins,
             'clauses_not_decided': cfg.get('undecided', []),
